@@ -1025,6 +1025,42 @@ pub fn gen_scenario(p: &mut Prng, id: String) -> SimCase {
     c
 }
 
+/// sizes past every plausible index width or preallocated capacity: many machines on a side (9, 17, 33,
+/// 65, 70) or a long trace (1100 .. 4500 packets: more than the queues' initial capacities of 1024 / 4096
+/// and the bottleneck window's 512)
+pub fn gen_big(p: &mut Prng, id: String) -> SimCase {
+    let long = p.chance(1, 2);
+    let (trace0, nmc, nms) = if long {
+        let n = *p.pick(&[1100u64, 2100, 4500]);
+        let mut t: u64 = 0;
+        let mut out = Vec::new();
+        let mut dir = true;
+        for _ in 0..n {
+            t += *p.pick(&[0u64, 100, 1000, 50_000, 2_000_000]);
+            if p.chance(1, 3) {
+                dir = !dir;
+            }
+            out.push((t, dir));
+        }
+        (out, *p.pick(&[0usize, 0, 1]), *p.pick(&[0usize, 1]))
+    } else {
+        let big = *p.pick(&[9usize, 17, 33, 65, 70]);
+        if p.chance(1, 2) { (gen_trace(p), big, *p.pick(&[0usize, 1, 9])) } else { (gen_trace(p), *p.pick(&[0usize, 1]), big) }
+    };
+    let trace = decorate(p, trace0);
+    let delay_ns = *p.pick(DELAYS);
+    let mc: Vec<Machine> = (0..nmc).map(|_| gen_sim_machine(p, true)).collect();
+    let ms: Vec<Machine> = (0..nms).map(|_| gen_sim_machine(p, true)).collect();
+    let mut c = SimCase { id, kind: "big".into(), mc, ms, trace, delay_ns, runs: vec![] };
+    let mut main = base_run("main", p, None);
+    if long {
+        main.msi = if nmc + nms == 0 { 0 } else { 30000 };
+        main.mtl = 0;
+    }
+    expand_runs(&mut c, main, p);
+    c
+}
+
 pub fn gen_kind(kind: &str, p: &mut Prng, id: String) -> Option<SimCase> {
     Some(match kind {
         "general" => gen_general(p, id),
@@ -1032,6 +1068,7 @@ pub fn gen_kind(kind: &str, p: &mut Prng, id: String) -> Option<SimCase> {
         "blocking" => gen_blocking(p, id),
         "timers" => gen_timers(p, id),
         "scenario" => gen_scenario(p, id),
+        "big" => gen_big(p, id),
         _ => return None,
     })
 }
